@@ -2,10 +2,14 @@ CONSTANTS
   CacheKeyedByNameOnly = FALSE
   ContentCacheByFile = FALSE
   ResultsAliased = FALSE
+  GetMemberRewinds = FALSE
+  LazyScanDiesOnFault = FALSE
   EmitH = TRUE
 SPECIFICATION Spec
 INVARIANT CacheCoherent
 INVARIANT NoOtherMemo
+INVARIANT NoHiddenState
+INVARIANT HandleSound
 PROPERTY HistExact
 PROPERTY RepeatStable
 VIEW HView
